@@ -73,10 +73,11 @@ class _FileView(BudgetBytesIO):
 
     faults = 0
     log = ()
+    prelen = 0  # bytes the application consumed before it handed the file to the reader
 
     @property
     def pos(self):
-        return self.tell()
+        return self.tell() - self.prelen
 
     @property
     def exhausted(self):
@@ -176,7 +177,10 @@ def o_stream(case):
         out, raised, stream = drive_socket(case, data)
         stream.log = []
     elif case.get("stream") == "file":
-        stream = _FileView(data)
+        pre = bytes.fromhex(case.get("pre") or "")
+        stream = _FileView(pre + data)
+        stream.prelen = len(pre)
+        stream.seek(len(pre))
         out, raised = drive(case, data, stream)
     else:
         stream = ScriptedStream(data, case["script"], slack=32)
@@ -259,8 +263,12 @@ def s_stream(draw, tier):
 @st.composite
 def _s_stream(draw, tier):
     items = streams.flatten(draw(st.lists(streams.adversarial_items("small"), min_size=1, max_size=12)))
-    if draw(st.integers(0, 11)) == 0:
-        return {"items": items, "script": [], "qoe": draw(st.sampled_from([0, 1, 2])), "stream": "file"}
+    if draw(st.integers(0, 7)) == 0:
+        pre = ""
+        if draw(st.booleans()):
+            # the application read a file header (here: items like those that follow) before handing the file over
+            pre = (streams.join(streams.flatten(draw(st.lists(streams.adversarial_items("small"), min_size=1, max_size=4)))) + bytes(draw(st.integers(0, 40))))[:600].hex()
+        return {"items": items, "script": [], "qoe": draw(st.sampled_from([0, 1, 2])), "stream": "file", "pre": pre}
     if draw(st.integers(0, 3)) == 0:
         bufsize = draw(st.sampled_from([1, 3, 64, 512, 4096]))
         if draw(st.integers(0, 3)) == 0:
